@@ -454,6 +454,8 @@ vharness!(vec_scalar_ops, unwind = 7, |s| {
         core::mem::forget((r1, r2, r3, r4));
     } }
 });
+fn fmul(a: f64, b: f64) -> f64 { core::ops::Mul::mul(a, b) }
+fn fsub(a: f64, b: f64) -> f64 { core::ops::Sub::sub(a, b) }
 fn arr(xs: &[f64; 3], n: usize) -> V {
     // concrete shapes, symbolic data (a symbolic length inside SmallVec::collect explodes in CBMC)
     match n {
@@ -471,12 +473,13 @@ vharness!(vec_dot_cross, unwind = 7, |s| {
         let b: V = arr(&ys, m);
         let r = e_dot_bin(dup(&a), dup(&b));
         if n != m { assert!(is_err(&r), "C16 dot: different lengths -> error"); } else {
-            let mut acc = 0.0f64; for j in 0..n { acc = acc + xs[j] * ys[j]; }
+            // float arithmetic through the operator traits: uninterpreted under Kani exactly like in the generic code under test
+            let mut acc = 0.0f64; for j in 0..n { acc = core::ops::Add::add(acc, core::ops::Mul::mul(xs[j], ys[j])); }
             assert!(is_float(&r, acc), "C16 dot: sum of products");
         }
         let c = e_cross_bin(dup(&a), b);
         if n != 3 || m != 3 { assert!(is_err(&c), "C16 cross: lengths other than 3 -> error"); } else {
-            match &c { Val::Array(v) => assert!(v.len() == 3 && same_f(v[0], xs[1] * ys[2] - xs[2] * ys[1]) && same_f(v[1], xs[2] * ys[0] - xs[0] * ys[2]) && same_f(v[2], xs[0] * ys[1] - xs[1] * ys[0]), "C16 cross: right-handed cross product"),
+            match &c { Val::Array(v) => assert!(v.len() == 3 && same_f(v[0], fsub(fmul(xs[1], ys[2]), fmul(xs[2], ys[1]))) && same_f(v[1], fsub(fmul(xs[2], ys[0]), fmul(xs[0], ys[2]))) && same_f(v[2], fsub(fmul(xs[0], ys[1]), fmul(xs[1], ys[0]))), "C16 cross: right-handed cross product"),
                        _ => assert!(false, "C16 cross: result is an array") }
         }
         core::mem::forget((r, c));
